@@ -38,6 +38,9 @@ def decKind (j : Json) : Except String ClsKind := do
     let fs ← (← fieldArr j "fields").mapM fun f => do
       return ({ name := ← fieldStr f "n", type := ← decHint (← field f "t"), required := ← fieldBool f "r" } : Field)
     return .model fs
+  | "enum" =>
+    let ms ← (← fieldArr j "members").mapM fun m => do return ((← fieldStr m "n"), (← decLit (← field m "v")))
+    return .enum ms
   | _ => throw s!"bad class kind {k}"
 
 def decUniv (j : Json) : Except String Univ := do
@@ -61,6 +64,9 @@ partial def decVal (j : Json) : Except String Val :=
   | .str s => pure (.str s)
   | .num _ => do return .int (← asInt j)
   | .obj _ =>
+    match j.getObjVal? "e" with
+    | .ok c => do return .enum (← asNat c) (← fieldStr j "n")
+    | _ =>
     match j.getObjVal? "l", j.getObjVal? "t", j.getObjVal? "d", j.getObjVal? "o" with
     | .ok (.arr a), _, _, _ => do return .list (← a.toList.mapM decVal)
     | _, .ok (.arr a), _, _ => do return .tuple (← a.toList.mapM decVal)
@@ -87,6 +93,7 @@ partial def encVal : Val → Json
   | .tuple xs => Json.mkObj [("t", listJ (xs.map encVal))]
   | .dict kvs => Json.mkObj [("d", listJ (kvs.map fun (k, v) => listJ [.str k, encVal v]))]
   | .obj c fs => Json.mkObj [("o", natJ c), ("f", listJ (fs.map fun (k, v) => listJ [.str k, encVal v]))]
+  | .enum c n => Json.mkObj [("e", natJ c), ("n", .str n)]
 
 partial def encErr : ErrTree → Json
   | .node cls kids => listJ [.str cls, listJ (kids.map encErr)]
@@ -100,9 +107,19 @@ def encOutcome : Outcome → Json
 def decDir (s : String) : Except String Dir :=
   match s with | "load" => pure .load | "dump" => pure .dump | _ => throw s!"bad dir {s}"
 
+/-- `{"p": "user", "dir", "fid", "ts": [hints]}` (`{"dir", "t", "fid"}`: one target), `{"p": "enum_by_name", "ts"}`,
+    `{"p": "enum_by_exact_value", "ts"}` -/
 def decRecipe (j : Json) : Except String (List RecipeEntry) := do
   (← asArr j).mapM fun e => do
-    return ({ dir := ← decDir (← fieldStr e "dir"), target := ← decHint (← field e "t"), fid := ← fieldNat e "fid" } : RecipeEntry)
+    let targets ← match e.getObjVal? "ts" with
+      | .ok ts => (← asArr ts).mapM decHint
+      | _ => do pure [← decHint (← field e "t")]
+    let p := match e.getObjVal? "p" with | .ok (.str p) => p | _ => "user"
+    match p with
+    | "user" => return ({ prov := .user (← decDir (← fieldStr e "dir")) (← fieldNat e "fid"), targets := targets } : RecipeEntry)
+    | "enum_by_name" => return { prov := .enumByName, targets := targets }
+    | "enum_by_exact_value" => return { prov := .enumByExactValue, targets := targets }
+    | _ => throw s!"bad recipe entry kind {p}"
 
 def decCfg (j : Json) : Except String Cfg := do
   return { strict := ← fieldBool j "strict", recipe := ← decRecipe (← field j "recipe") }
